@@ -150,9 +150,48 @@ type revent struct {
 	N    int    `json:"n,omitempty"`
 	err  error
 	tr   *trace
+	kept *keptEvent // payload events: the object the stats handler was given, retained
 }
 
 type trace struct{ n int }
+
+// keptEvent is a payload event exactly as it was handed to HandleRPC - the
+// pointer is retained, as a recording / exporting stats handler would - next
+// to what it said at that moment. It is compared again after the RPC and at
+// the end of the run: one event per message means the events a handler holds
+// stay distinct objects that keep describing their own message.
+type keptEvent struct {
+	ev      stats.RPCStats
+	dir     string // In | Out
+	proto   string
+	length  int
+	wire    int
+	payload interface{}
+	rpc     string
+}
+
+func (k *keptEvent) now() (length, wire int, payload interface{}) {
+	switch e := k.ev.(type) {
+	case *stats.InPayload:
+		return e.Length, e.WireLength, e.Payload
+	case *stats.OutPayload:
+		return e.Length, e.WireLength, e.Payload
+	}
+	return 0, 0, nil
+}
+
+func (k *keptEvent) changed() string {
+	l, w, p := k.now()
+	switch {
+	case l != k.length:
+		return fmt.Sprintf("Length %d -> %d", k.length, l)
+	case w != k.wire:
+		return fmt.Sprintf("WireLength %d -> %d", k.wire, w)
+	case p != k.payload:
+		return "Payload now refers to another message"
+	}
+	return ""
+}
 
 type rscn struct {
 	id     string
@@ -192,6 +231,8 @@ type rpcSvc struct {
 	muxMu   sync.Mutex
 	muxes   map[string]*larking.Mux
 	orphans int64 // stats events that could not be attributed to any RPC
+	keptMu  sync.Mutex
+	kept    []*keptEvent // every payload event of the run, retained
 }
 
 func newRPCSvc(withProxy bool) (*rpcSvc, error) {
@@ -544,6 +585,7 @@ func (h *statsRec) HandleRPC(ctx context.Context, st stats.RPCStats) {
 	}
 	name, info, n := "", "", 0
 	var err error
+	var kept *keptEvent
 	switch e := st.(type) {
 	case *stats.InHeader:
 		name, info = "InHeader", e.FullMethod
@@ -554,11 +596,13 @@ func (h *statsRec) HandleRPC(ctx context.Context, st stats.RPCStats) {
 		if e.Payload == nil {
 			info = "nil-payload"
 		}
+		kept = &keptEvent{ev: e, dir: "In", length: e.Length, wire: e.WireLength, payload: e.Payload}
 	case *stats.OutPayload:
 		name, n = "OutPayload", e.Length
 		if e.Payload == nil {
 			info = "nil-payload"
 		}
+		kept = &keptEvent{ev: e, dir: "Out", length: e.Length, wire: e.WireLength, payload: e.Payload}
 	case *stats.OutHeader:
 		name = "OutHeader"
 	case *stats.OutTrailer:
@@ -573,7 +617,44 @@ func (h *statsRec) HandleRPC(ctx context.Context, st stats.RPCStats) {
 	if tr == nil {
 		info = "untagged " + info
 	}
+	if kept != nil {
+		kept.proto, kept.rpc = sc.spec.protoClass(), sc.id
+		h.s.keptMu.Lock()
+		h.s.kept = append(h.s.kept, kept)
+		h.s.keptMu.Unlock()
+	}
 	sc.add("st", name, info, err, n, tr)
+	if kept != nil {
+		sc.mu.Lock()
+		sc.events[len(sc.events)-1].kept = kept
+		sc.mu.Unlock()
+	}
+}
+
+// checkKept looks at every payload event retained during the run.
+func (s *rpcSvc) checkKept(r *mon.Run) {
+	s.keptMu.Lock()
+	defer s.keptMu.Unlock()
+	seen := map[stats.RPCStats]*keptEvent{}
+	for _, k := range s.kept {
+		if first, dup := seen[k.ev]; dup {
+			cross := "same-rpc"
+			if first.rpc != k.rpc {
+				cross = "across-rpcs"
+			}
+			r.Violate(fmt.Sprintf("%s:stats-payload-event-object-reused:%s:%s", k.proto, k.dir, cross),
+				fmt.Sprintf("the stats handler was handed the same *stats.%sPayload object for two messages (%s): the events it retained are not one per message", k.dir, cross),
+				map[string]any{"part": "stats-retained", "proto": k.proto, "dir": k.dir})
+		} else {
+			seen[k.ev] = k
+		}
+		if ch := k.changed(); ch != "" {
+			r.Violate(fmt.Sprintf("%s:stats-payload-event-changed-after-delivery:%s", k.proto, k.dir),
+				fmt.Sprintf("a *stats.%sPayload event retained by the stats handler no longer describes its message at the end of the run: %s", k.dir, ch),
+				map[string]any{"part": "stats-retained", "proto": k.proto, "dir": k.dir})
+		}
+	}
+	r.Count("stats_payload_events_retained_and_rechecked", len(s.kept))
 }
 
 // ------------------------------------------------------------ execution
@@ -951,6 +1032,22 @@ func (s *rpcSvc) check(c *RPCCase, o *outcome) (vs []viol, obs map[string]int) {
 	}
 	if c.Target == "local" && iFirstH >= 0 && iEnd >= 0 && (iLastH > iEnd || (iBegin >= 0 && iFirstH < iBegin)) {
 		add(pc+":stats-sequence:handler-outside-begin-end", fmt.Sprintf("the handler of %s ran outside the Begin..End bracket of its stats trace", full))
+	}
+
+	// the payload events the handler retained from this RPC: distinct
+	// objects, still describing the message they were delivered for
+	seenEv := map[stats.RPCStats]bool{}
+	for _, e := range st {
+		if e.kept == nil {
+			continue
+		}
+		if seenEv[e.kept.ev] {
+			add(pc+":stats-payload-event-object-reused:"+e.kept.dir+":same-rpc", fmt.Sprintf("%s: the same *stats.%sPayload object was delivered for two messages of the RPC (trace %q)", full, e.kept.dir, seq))
+		}
+		seenEv[e.kept.ev] = true
+		if ch := e.kept.changed(); ch != "" {
+			add(pc+":stats-payload-event-changed-after-delivery:"+e.kept.dir, fmt.Sprintf("%s: a retained *stats.%sPayload event changed after HandleRPC returned: %s", full, e.kept.dir, ch))
+		}
 	}
 
 	// payload counts
@@ -1449,6 +1546,25 @@ func RunC18(r *mon.Run) {
 			}
 		}
 	}
+	// several messages of different sizes per direction (a stats handler that
+	// retains its events must end up with one distinct event per message)
+	for _, target := range []string{"local", "proxy"} {
+		for _, method := range []string{"CS", "SS", "Bidi"} {
+			for _, p := range []string{"grpc", "web", "webtext", "http-json", "http-proto", "http-implicit"} {
+				in, out := []int{2, 100, 6, 5}, []int{100, 3, 5, 0, 6}
+				if target == "proxy" {
+					in = []int{6, 100, 5, 7} // one size class (see the package note)
+				}
+				switch method {
+				case "CS":
+					out = out[:1]
+				case "SS":
+					in = in[:1]
+				}
+				jobs = append(jobs, job{RPCCase{Part: "rpc", Target: target, Proto: p, Method: method, In: in, Out: out}, []Opts{{}, {Stats: true}, {Unary: "rec", Stream: "rec", Stats: true}}})
+			}
+		}
+	}
 	// calls that end while, or before, the handler runs: the grpc-timeout
 	// expires / the client cancels during the handler, which then returns its
 	// own error or nil; calls that arrive expired or cancelled
@@ -1556,6 +1672,7 @@ func RunC18(r *mon.Run) {
 	}
 	runSockets(r, s)
 	runLockStep(r, s)
+	s.checkKept(r)
 	runWS(r)
 }
 
